@@ -403,6 +403,35 @@ int main(int argc, char** argv) {
                 if (op == 0x80 || op == 0x81) { for (auto& x : Wv) for (auto& y : offs) tuples.push_back({x, y}); }
                 else for (auto& x : Wv) for (auto& y : Wv) tuples.push_back({x, y});
             } else for (auto& x : Wv) for (auto& y : offs) for (auto& z : offs) tuples.push_back({x, y, z});
+            // beyond the small values: long strings (every length class around 8/16/32/64/128/256 and the 520-byte limit), offsets
+            // around 128 / 256 / the string length, mid-range numbers whose products and quotients need more than 32 bits
+            {
+                auto pat = [](size_t n, int seed) { bytes b(n); for (size_t i = 0; i < n; i++) b[i] = uint8_t((i * 37 + seed * 101 + (i >> 3) * 13 + (i % 7 == 3 ? 0x80 : 0)) & 0xff); if (n && seed == 2) b[n - 1] = 0x80; if (n && seed == 3) b[n - 1] = 0x00; return b; };
+                std::vector<size_t> lens = {7, 8, 9, 15, 16, 17, 24, 31, 32, 33, 63, 64, 65, 100, 127, 128, 129, 130, 200, 255, 256, 257, 259, 260, 261, 300, 511, 512, 513, 519, 520};
+                if (tier != "quick") for (size_t n = 5; n <= 520; n += 1) lens.push_back(n);
+                auto num = [](int64_t v) { return ref::num_encode(v); };
+                if (op == 0x83) for (size_t n : lens) for (int sd = 0; sd < 4; sd++) tuples.push_back({pat(n, sd)});
+                if (op == 0x84 || op == 0x85 || op == 0x86) for (size_t n : lens) { tuples.push_back({pat(n, 0), pat(n, 1)}); tuples.push_back({pat(n, 2), pat(n, 3)}); tuples.push_back({pat(n, 1), bytes(n, 0xff)}); tuples.push_back({pat(n, 0), pat(n - 1, 1)}); tuples.push_back({pat(n - 1, 0), pat(n, 1)}); }
+                if (op == 0x7e) {
+                    for (size_t n : lens) for (size_t m : {size_t(0), size_t(1), size_t(2), size_t(127), size_t(128), size_t(255), size_t(256), size_t(260), n, 519 - std::min(n, size_t(519)), 520 - n, 521 - n})
+                        if (m <= 520) { tuples.push_back({pat(n, 0), pat(m, 1)}); if (tier != "quick" || n % 2) tuples.push_back({pat(m, 2), pat(n, 3)}); }
+                }
+                if (op == 0x7f || op == 0x80 || op == 0x81) {
+                    for (size_t n : lens) {
+                        if (tier != "quick" && n > 300 && n % 16 > 2 && n < 500) continue;
+                        std::vector<int64_t> os = {0, 1, 2, 126, 127, 128, 129, 130, 254, 255, 256, 257, 258, int64_t(n) - 2, int64_t(n) - 1, int64_t(n), int64_t(n) + 1, int64_t(n) / 2, -1};
+                        std::sort(os.begin(), os.end()); os.erase(std::unique(os.begin(), os.end()), os.end());
+                        for (int sd : {0, 2}) {
+                            if (op != 0x7f) { for (int64_t o1 : os) tuples.push_back({pat(n, sd), num(o1)}); }
+                            else for (int64_t o1 : os) for (int64_t o2 : os) { if (tier == "quick" && sd == 2 && (o1 + o2) % 3) continue; tuples.push_back({pat(n, sd), num(o1), num(o2)}); }
+                        }
+                    }
+                }
+                std::vector<int64_t> mids = {3, 7, 10, 100, 255, 256, 257, 1000, 0x1234, 0x7fff, 0x8000, 0xb504, 0xb505, 46340, 46341, 65535, 65536, 65537, 0x12345, 99999, 0x123456, 0x800000, 0x7fffff, 1000000, 0x1234567, 0x76543210 >> 1, 0x40000000, 0x5a827999, 1234567890, 2147483647};
+                if (op == 0x95 || op == 0x96 || op == 0x97) for (int64_t a : mids) for (int64_t b : mids) for (int sg = 0; sg < 4; sg++) { if (tier == "quick" && sg && (a + b) % 2) continue; tuples.push_back({num(sg & 1 ? -a : a), num(sg & 2 ? -b : b)}); }
+                if (op == 0x8d || op == 0x8e) for (int64_t a : mids) { tuples.push_back({num(a)}); tuples.push_back({num(-a)}); }
+                if (op == 0x98 || op == 0x99) for (int64_t a : mids) for (int64_t sh = 0; sh <= 66; sh++) { tuples.push_back({num(a), num(sh)}); if (sh % 5 == 0) tuples.push_back({num(-a), num(sh)}); }
+            }
             // too few operands
             for (int k = 0; k < ar; k++) tuples.push_back(std::vector<bytes>(k, bytes{0x01}));
             for (auto& t : tuples) {
@@ -458,6 +487,30 @@ int main(int argc, char** argv) {
             // integers: [-2^16, 2^16] split over the chunks, and around every +-2^k
             for (int64_t n = -65536 + int64_t(idx) * 512; n < -65536 + int64_t(idx + 1) * 512 + (idx == 255 ? 1 : 0); n++) check_int(n, v, st);
             if (idx < 64) { int k = int(idx); for (int d = -3; d <= 3; d++) { if (k < 63) { int64_t p = (int64_t(1) << k); check_int(p + d, v, st); check_int(-p + d, v, st); } } }
+            // mid-range integers, far from every power of two: three stride lattices (a decimal-rich, a just-above-2^32 and a
+            // byte-pattern-rich stride) split over the chunks; decimal digit shapes; every value whose magnitude bytes are drawn from
+            // {00, 01, 5a, 7f, 80, ff} (up to 6 bytes, inner 0x80 / 0xff / 0x00 bytes at every position)
+            {
+                int J = full4 ? 4000 : 500;
+                for (int j = 0; j < J; j++) { int64_t m = int64_t(idx) + 256 * int64_t(j);
+                    for (int64_t stride : {int64_t(1000003), int64_t(4294967311LL), int64_t(0x0080ff017fLL)}) {
+                        __int128 w = (__int128)m * stride; if (w > (__int128)INT64_MAX) continue; check_int(int64_t(w), v, st); check_int(-int64_t(w), v, st); } }
+            }
+            if (idx == 65) {
+                for (int len = 1; len <= 18; len++) {
+                    int64_t p10 = 1; for (int i = 0; i < len; i++) p10 *= 10;
+                    for (int d = -2; d <= 2; d++) { check_int(p10 + d, v, st); check_int(-p10 + d, v, st); }
+                    for (int d = 1; d <= 9; d++) { int64_t r = 0; for (int i = 0; i < len; i++) r = r * 10 + d; check_int(r, v, st); check_int(-r, v, st);
+                        // a run of 9s with the digit d at each position, and a run of 0s after a leading 1 with d at each position
+                        int64_t q = 1; for (int pos = 0; pos < len; pos++, q *= 10) { int64_t nines = p10 - 1 - (9 - d) * q; check_int(nines, v, st); check_int(-nines, v, st); int64_t zeros = p10 + d * q; check_int(zeros, v, st); check_int(-zeros, v, st); } }
+                    int64_t asc = 0; for (int i = 0; i < len; i++) asc = asc * 10 + (i + 1) % 10; check_int(asc, v, st); check_int(-asc, v, st);
+                }
+            }
+            if (idx >= 66 && idx < 72) {
+                const uint8_t six[6] = {0x00, 0x01, 0x5a, 0x7f, 0x80, 0xff};
+                for (int k = 1; k <= 6; k++) { int total = 1; for (int i = 1; i < k; i++) total *= 6;
+                    for (int c = 0; c < total; c++) { int64_t val = six[idx - 66]; int cc = c; for (int i = 1; i < k; i++) { val |= int64_t(six[cc % 6]) << (8 * i); cc /= 6; } check_int(val, v, st); check_int(-val, v, st); } }
+            }
             if (idx == 64) { check_int(INT64_MAX, v, st); check_int(INT64_MAX - 1, v, st); check_int(INT64_MIN + 1, v, st); check_int(INT64_MIN, v, st); }
             v.dump(o); fprintf(o, "N\t%lld\t%lld\t%lld\t%lld\n", st.strings, st.minimal, st.ints, st.locktime_operands);
         };
